@@ -8,5 +8,6 @@ CONSTANTS
   AsFound_DecorativeUntested = FALSE
   AsFound_DecorativeExcluded = FALSE
   AsFound_TimeAxisFrozen = FALSE
+  AsFound_AcceptanceUsesStepTolerance = FALSE
 POSTCONDITION AllConsumed
 CHECK_DEADLOCK FALSE
